@@ -54,7 +54,7 @@ def gen_includes(spec, d, defs, incs, cbmc=False):
     clauses = extract_clauses(spec, defs, incs, cbmc)
     htxt = open(os.path.join(VERIF, "harness", spec["src"])).read()
     os.makedirs(os.path.join(d, "gen"), exist_ok=True)
-    for fn in set(re.findall(r'#include "gen/p(?:re|ost)_(\w+)\.inc"', htxt)):
+    for fn in set(re.findall(r'#include "gen/(?:pre|post|assume)_(\w+)\.inc"', htxt)):
         olds = []
         posts = []
         for label, expr in clauses.get(fn, []):
@@ -83,6 +83,18 @@ def gen_includes(spec, d, defs, incs, cbmc=False):
                     f.write("  __typeof__(%s) verif_old_%s_%d = (%s);\n" % (inner, fn, i, inner))
         with open(os.path.join(d, "gen", "post_%s.inc" % fn), "w") as f:
             f.write("\n".join(posts) + "\n")
+        # assume-form (for hand-written "replace by contract" stubs, see h_drain.c)
+        with open(os.path.join(d, "gen", "assume_%s.inc" % fn), "w") as f:
+            for label, expr in clauses.get(fn, []):
+                e2 = expr
+                while True:
+                    k = e2.find("__CPROVER_old(")
+                    if k < 0:
+                        break
+                    e = _balanced(e2, k + len("__CPROVER_old"))
+                    inner = e2[k + len("__CPROVER_old("):e - 1]
+                    e2 = e2[:k] + "verif_old_%s_%d" % (fn, olds.index(inner)) + e2[e:]
+                f.write("  __CPROVER_assume(%s); /* %s */\n" % (e2, label))
 
 
 def value_of(entry):
